@@ -347,15 +347,14 @@ def gen_tasks(ctx, docs, quick):
     for fmt, dl in per_fmt.items():
         for name, text in dl:
             faults = list(C.all_single_faults(fmt, text))
-            if quick:
-                k = max(20, budget // len(dl))
-                if len(faults) > k:
-                    faults = rng.sample(faults, k)
+            k = max(20, budget // len(dl)) if quick else (2000 if fmt == "cif" else 5000)
+            if len(faults) > k:
+                faults = rng.sample(faults, k)
             faults.insert(0, ("valid", text))
             for d, t in faults:
                 tasks.append([(fmt, name, d), fmt, t])
         L = [ln for _, text in dl for ln in text.split("\n")]
-        ns = 60 if quick else 1500
+        ns = 60 if quick else 1000
         for k in range(ns):
             tasks.append([(fmt, "soup", "token:%d" % k), fmt, C.token_soup(fmt, rng)])
             tasks.append([(fmt, "soup", "records:%d" % k), fmt, C.structured_soup(fmt, rng, L)])
@@ -442,7 +441,8 @@ def run(ctx):
                 if kind.startswith("escape:"):
                     key = violation_key(f, text, o)
                     seen.setdefault(key, []).append((tid, en, o))
-                    if fmt in tables and not explained(tables, o):
+                    if fmt in tables and not explained(tables, o) \
+                            and not any(re.search(kf["match"], key) for kf in ctx.known):
                         unexplained.append((tid, en, o["kind"], o["site"]))
                 # CIF oracles: kinds that were translated or escaped, by block reader
                 if fmt == "cif" and en != "auto:parse":
